@@ -12,6 +12,16 @@ SPEC = os.path.join(VERIF, "spec")
 HARNESS = os.path.join(VERIF, "harness")
 NCPU = os.cpu_count() or 4
 
+# TLC is started through java directly (not the `tlc` wrapper) so that -Xss is on the command line: the
+# launcher sizes the main thread - where ASSUMEs (the judge-all pattern) are evaluated - from the command
+# line only, JAVA_TOOL_OPTIONS does not reach it.
+TLA_CP = "/opt/veriftools/tla/tla2tools.jar:/opt/veriftools/tla/CommunityModules-deps.jar"
+def tlc_cmd(heap=None):
+    c = ["java", "-Xss256m", "-XX:+UseParallelGC"]
+    if heap:
+        c.append("-Xmx" + heap)
+    return c + ["-cp", TLA_CP, "tlc2.TLC"]
+
 GOENV = dict(os.environ, GOFLAGS="-mod=mod", GOPROXY="off", GOSUMDB="off", GOTOOLCHAIN="local")
 
 
@@ -137,17 +147,13 @@ class Ctx:
         """Run TLC on <module>.tla in a scratch copy of spec/. Returns (returncode, stdout)."""
         d = workdir or self.spec_dir()
         md = tempfile.mkdtemp(prefix="md-", dir=self.scratch)
-        cmd = ["timeout", str(int(timeout)), "tlc", "-metadir", md, "-workers", str(workers)]
+        cmd = ["timeout", str(int(timeout))] + tlc_cmd(heap) + ["-metadir", md, "-workers", str(workers)]
         if cfg:
             cmd += ["-config", cfg]
         if simulate:
             cmd += ["-simulate", simulate]
         cmd += list(extra) + [module + ".tla"]
         env = dict(os.environ)
-        jopts = "-Xss512m"
-        if heap:
-            jopts += " -Xmx%s" % heap
-        env["JAVA_TOOL_OPTIONS"] = (env.get("JAVA_TOOL_OPTIONS", "") + " " + jopts).strip()
         t = time.time()
         r = subprocess.run(cmd, cwd=d, capture_output=True, text=True, env=env)
         self.tlc_cmds.append("tlc -workers %s %s%s%s  [%.1fs]" % (workers, ("-config %s " % cfg) if cfg else "",
@@ -171,14 +177,14 @@ class Ctx:
         outs = [None] * len(jobs)
         pending = list(enumerate(jobs))
         running = []
+        retries = {}
         env = dict(os.environ)
-        env["JAVA_TOOL_OPTIONS"] = (env.get("JAVA_TOOL_OPTIONS", "") + " -Xss512m -Xmx3g").strip()
         t_end = time.time() + timeout
         while pending or running:
             while pending and len(running) < NCPU:
                 i, (module, cfg, wd) = pending.pop(0)
                 md = tempfile.mkdtemp(prefix="md-", dir=self.scratch)
-                cmd = ["timeout", str(int(timeout)), "tlc", "-metadir", md, "-workers", "1"]
+                cmd = ["timeout", str(int(timeout))] + tlc_cmd("3g") + ["-metadir", md, "-workers", "1"]
                 if cfg:
                     cmd += ["-config", cfg]
                 cmd += [module + ".tla"]
@@ -192,6 +198,12 @@ class Ctx:
                     out, _ = p.communicate()
                     shutil.rmtree(md, ignore_errors=True)
                     if p.returncode != 0:
+                        if retries.get(i, 0) < 1 and not re.search(r"Error: (Evaluating|Invariant|The|Attempted)", out):
+                            # resource hiccup of the JVM (not a semantic failure): run this shard once more
+                            retries[i] = retries.get(i, 0) + 1
+                            self.notes.append("TLC shard %d of %s exited %d without a semantic error; retried" % (i, module, p.returncode))
+                            pending.append((i, jobs[i]))
+                            continue
                         for _, q, _, _ in running:
                             if q.poll() is None:
                                 q.kill()
